@@ -46,6 +46,9 @@ def _explore_job(args):
     (mod_name, factory_name, scenario, bound, limits) = args
     try:
         import importlib
+        if scenario.get("tz"):
+            import time as _t
+            os.environ["TZ"] = scenario["tz"]; _t.tzset()
         from harness.explorer import explore
         mod = importlib.import_module(mod_name)
         factory = getattr(mod, factory_name)
@@ -53,6 +56,8 @@ def _explore_job(args):
         viols = []
         for v, trace, path in res.violations:
             viols.append({"v": v.to_json(), "labels": trace, "choices": path})
+        if scenario.get("tz"):
+            os.environ["TZ"] = "UTC"; _t.tzset()
         return {"name": scenario["name"], "family": scenario.get("family"), "states": res.states,
                 "transitions": res.transitions, "executions": res.executions, "max_depth": res.max_depth,
                 "caps": res.caps, "outcomes": len(res.outcomes), "outcome_keys": list(res.outcomes)[:4], "violations": viols, "paths": res.replays + 1,
@@ -220,12 +225,14 @@ def annotate(sc, inband=True):
         d = sc["machines"][s["machine"]]["definition"]
         try:
             strict = RA.run(d, copy.deepcopy(s.get("input", {})), RA.ScriptedTasks(sc.get("workers", {})),
-                            context={"Execution": {"Input": copy.deepcopy(s.get("input", {})), "Name": s["name"]}},
+                            context={"Execution": {"Input": copy.deepcopy(s.get("input", {})), "Name": s["name"]}, "__epoch": 1900000000.0},
                             exec_timeout=sc.get("execution_ttl", 300))
             exp[arn] = {"status": strict.status, "output": strict.output, "error": strict.error, "end_time": strict.end_time,
                         "task_log": [[a, list(map(list, b)), c, t] for a, b, c, t in strict.task_log]}
         except RA.Unjudged as e:
             exp[arn] = {"status": None, "why": str(e)}
+        if sc.get("schedule") == "timed":
+            exp[arn] = {"status": None, "why": "timed schedule class: the environment may be arbitrarily slow, the prompt-delivery reference does not apply"}
         if sc.get("expect_any_error"):
             exp[arn] = {"status": "FAILED", "errors": sc["expect_any_error"]}
             if any(k in json.dumps(d) for k in ('"Catch"',)):
